@@ -82,11 +82,13 @@ func (s *Modifier) ModifyRequest(req *http.Request) error {
 // will be a 404. ModifyResponse will return a 404 for any path that is defined in s.explictPaths
 // and that does not exist locally, even if that file does exist in s.rootPath.
 func (s *Modifier) ModifyResponse(res *http.Response) error {
-	reqpth := filepath.Clean(res.Request.URL.Path)
+	// Both the request path and a mapped value are made absolute before they are
+	// cleaned, so that no ".." can climb out of the root.
+	reqpth := filepath.Clean("/" + res.Request.URL.Path)
 	fpth := filepath.Join(s.rootPath, reqpth)
 
 	if _, ok := s.explicitPaths[reqpth]; ok {
-		fpth = filepath.Join(s.rootPath, s.explicitPaths[reqpth])
+		fpth = filepath.Join(s.rootPath, filepath.Clean("/"+s.explicitPaths[reqpth]))
 	}
 
 	f, err := os.Open(fpth)
